@@ -68,7 +68,7 @@ Definition vm_receive_removed_run (i : bytes * Z * bytes) : Z * list (bytes * Z 
    that have that method in the current spork regime (list observed from embedded.GetEmbeddedMethod) *)
 Definition dest_check_of (donate : list bytes) (d : dsend) : option Z :=
   if is_embedded (d_to d) then
-    if bytes_eqb (d_to d) AddrTokenContract && (len (d_data d) =? 33) then None
+    if bytes_eqb (d_to d) AddrTokenContract && ((len (d_data d) =? 33) || (bytes_eqb (d_data d) Sel_token_Burn && (0 <? d_amount d))) then None
     else if existsb (bytes_eqb (d_to d)) donate && bytes_eqb (d_data d) Sel_common_Donate then None
     else Some 101
   else None.
